@@ -19,12 +19,14 @@ READY, NOTREADY = "R", "N"
 PUSH_T = "dfir_pipes::push::Push"
 PUSHVAR_T = "dfir_pipes::push::demux_var::PushVariadic"
 SINK_T = "futures_sink::Sink"
+SINKVAR_T = "sinktools::demux_var::SinkVariadic"
 
 # downstream protocol traits: trait -> (kind, level of poll results, {method: role})
 PROTO_TRAITS = {
     PUSH_T: ("push", "step", {"poll_ready": "ready", "start_send": "send", "poll_finalize": "fin:poll_finalize"}),
     PUSHVAR_T: ("push", "step", {"poll_ready": "ready", "start_send": "send", "poll_finalize": "fin:poll_finalize"}),
     SINK_T: ("sink", "poll", {"poll_ready": "ready", "start_send": "send", "poll_flush": "fin:poll_flush", "poll_close": "fin:poll_close"}),
+    SINKVAR_T: ("sink", "poll", {"poll_ready": "ready", "start_send": "send", "poll_flush": "fin:poll_flush", "poll_close": "fin:poll_close"}),
 }
 
 
@@ -47,7 +49,7 @@ class Spec:
 
 def fin_satisfied(own_kind, own_fin, down_kind, fd, ident):
     """is the finalize obligation of own method own_fin towards downstream ident met by the set fd of (fin, ident)?"""
-    have = set(n for n, i in fd if i == ident)
+    have = set(n for n, i in fd if i == ident or (i.endswith(".*") and ident.startswith(i[:-1])))
     if own_kind == "push":
         return bool(have)
     if own_fin == "poll_flush":
@@ -188,14 +190,15 @@ class Origins:
                             continue
                         r0, p0 = self.origin_place(p, depth + 1)
                         if r0 == 1 and self.b.kind != "Closure":
-                            res = (r0, p0 + ("?",))
+                            res = (r0, p0 + ("?" + (f["name"] if f else ""),))
                             break
         self.memo[local] = res
         return res
 
     @staticmethod
     def _ref_like(ty):
-        return ty.startswith("&") or "Pin<&" in ty or "Option<&" in ty or "Projection" in ty or "Option<core::pin::Pin<&" in ty
+        return (ty.startswith("&") or "Pin<&" in ty or "Option<&" in ty or "Projection" in ty or "Option<core::pin::Pin<&" in ty
+                or "::RefMut<" in ty or "::Ref<" in ty or "::ValuesMut<" in ty or "::IterMut<" in ty or "::Entry<" in ty or "::OccupiedEntry<" in ty or "::VacantEntry<" in ty)
 
     def origin_place(self, place, depth=0):
         root, path = self.origin(pl_local(place), depth)
@@ -234,6 +237,87 @@ class FnAnalysis:
         self.events = {}   # bb -> event dict for protocol calls
         self.helper_summ = {}   # callee def -> {"ready": frozenset, "findone": frozenset}
         self._scan()
+        self.scan_foralls()
+
+    def forall_event(self, bb):
+        return bb in self.scan_foralls()
+
+    def forall_tag(self, bb):
+        fe = self.scan_foralls().get(bb)
+        return fe["tag"] if fe else None
+
+    def scan_foralls(self):
+        """`iter_over(self.coll).try_fold/for_each/..(closure)` where the closure performs one protocol operation on
+        its element and chains the accumulator: an event on every element (`coll.*`)."""
+        if hasattr(self, "foralls"):
+            return self.foralls
+        self.foralls = {}
+        b = self.b
+        for bb, t in b.calls():
+            f = t.get("f")
+            if not f or f.get("trait") != "core::iter::traits::iterator::Iterator" or f["name"] not in ("try_fold", "try_for_each"):
+                continue
+            if not t["a"]:
+                continue
+            p0 = op_place(t["a"][0])
+            if p0 is None:
+                continue
+            it_ident = self.org.ident(p0)
+            if not it_ident.startswith("self."):
+                continue
+            parts = it_ident.split(".")
+            while parts and parts[-1].startswith("?"):
+                step = parts.pop()
+                if step[1:] not in ("values_mut", "iter_mut", "by_ref", "as_mut"):
+                    parts = None
+                    break
+            if not parts:
+                continue
+            coll = ".".join(parts)
+            # the closure argument
+            cdef = None
+            for a in t["a"][1:]:
+                p = op_place(a)
+                if p is not None and isinstance(p, int) and b.locals[p].startswith("closure#"):
+                    cdef = b.locals[p][len("closure#"):]
+            cb = self.crate.bodies.get(cdef) if cdef else None
+            if cb is None:
+                continue
+            cfa = FnAnalysis(self.crate, cb, self.spec, None)
+            elem_idents = set(ev["ident"] for ev in cfa.events.values())
+            if len(elem_idents) != 1:
+                continue
+            elem = next(iter(elem_idents))
+            kinds = set(ev["kind"] for ev in cfa.events.values())
+            if len(kinds) != 1 or "send" in kinds:
+                continue
+            kind = next(iter(kinds))
+            # accumulator chaining: the accumulator parameter must be matched Ready on every success return
+            acc = None
+            if f["name"] == "try_fold" and cb.argc >= 3 and cb.locals[2].startswith("core::task::poll::Poll<"):
+                acc = 2
+                cfa.tags[2] = ("ready", "<acc>", "poll_ok", False)
+            scratch = ImplResult()
+            sm = run_typestate(cfa, frozenset(), frozenset(), {}, scratch, "helper", {})
+            ok = False
+            if kind == "ready":
+                ok = sm["ready"] is not None and elem in sm["ready"] and (acc is None or "<acc>" in sm["ready"])
+            else:
+                nm = kind[4:]
+                ok = sm["findone"] is not None and (nm, elem) in sm["findone"] and (acc is None or "<acc>" in (sm["ready"] or ()))
+            if acc is None and f["name"] == "try_fold":
+                ok = False
+            if not ok:
+                continue
+            ident = coll + ".*"
+            level = "poll"
+            tag = (kind, ident, level, False)
+            self.foralls[bb] = {"tag": tag, "closure": cdef}
+            self.events[bb] = {"kind": kind, "ident": ident, "own": False, "dst": t.get("dst"), "bb": bb, "level": level,
+                               "dkind": "sink", "forall": True}
+            if isinstance(t.get("dst"), int) and t["dst"] != 0:
+                self.tags[t["dst"]] = tag
+        return self.foralls
 
     def helper_tag(self, t):
         """tag for the result of a call to an analysed inherent helper on the whole combinator"""
@@ -357,6 +441,17 @@ class FnAnalysis:
     def tag_of_place(self, place, depth=0):
         if isinstance(place, int):
             return self.tag_of_local(place, depth)
+        projs0 = pl_projs(place)
+        if len(projs0) == 1 and projs0[0].startswith(".") and depth < 20:
+            # field of a locally built tuple: the tag of the operand stored there
+            d = self.org.single_def(pl_local(place))
+            if d is not None and d[0] == "assign" and d[2]["k"] == "agg" and d[2]["agg"] == "tuple":
+                idx = int(projs0[0][1:].split(":")[0])
+                if idx < len(d[2]["ops"]):
+                    p = op_place(d[2]["ops"][idx])
+                    if p is not None:
+                        return self.tag_of_place(p, depth + 1)
+                return None
         base = self.tag_of_local(pl_local(place), depth)
         if base is None:
             return None
@@ -401,24 +496,56 @@ def short(ident):
 # =============================================================================== typestate dataflow
 
 class State:
-    __slots__ = ("ready", "fin_started", "fin_done")
+    """one disjunct: must-ready set, may-finalize-started set, must-finalize-done set, known bool locals"""
+    __slots__ = ("ready", "fin_started", "fin_done", "bools")
 
-    def __init__(self, ready=frozenset(), fin_started=frozenset(), fin_done=frozenset()):
+    def __init__(self, ready=frozenset(), fin_started=frozenset(), fin_done=frozenset(), bools=frozenset()):
         self.ready = ready
         self.fin_started = fin_started
         self.fin_done = fin_done
+        self.bools = bools
+
+    def key(self):
+        return (self.ready, self.fin_started, self.fin_done, self.bools)
 
     def __eq__(self, o):
-        return self.ready == o.ready and self.fin_started == o.fin_started and self.fin_done == o.fin_done
+        return self.key() == o.key()
+
+    def __hash__(self):
+        return hash(self.key())
 
     def join(self, o):
-        return State(self.ready & o.ready, self.fin_started | o.fin_started, self.fin_done & o.fin_done)
+        return State(self.ready & o.ready, self.fin_started | o.fin_started, self.fin_done & o.fin_done, self.bools & o.bools)
 
     def copy(self, **kw):
-        s = State(self.ready, self.fin_started, self.fin_done)
+        s = State(self.ready, self.fin_started, self.fin_done, self.bools)
         for k, v in kw.items():
             setattr(s, k, v)
         return s
+
+
+MAX_DISJUNCTS = 12
+
+
+def dj_join(a, b):
+    """join of two disjunct sets (frozensets of State): union, merging disjuncts that agree on bools; capped"""
+    u = set(a) | set(b)
+    by = {}
+    for st in u:
+        by.setdefault(st.bools, []).append(st)
+    out = set()
+    for k, lst in by.items():
+        m = lst[0]
+        for x in lst[1:]:
+            m = m.join(x)
+        out.add(m)
+    if len(out) > MAX_DISJUNCTS:
+        lst = list(out)
+        m = lst[0]
+        for x in lst[1:]:
+            m = m.join(x)
+        out = {m}
+    return frozenset(out)
 
 
 def related(a, b):
@@ -439,18 +566,25 @@ class ImplResult:
 
 def run_typestate(fa, entry_ready, own_ready_summary, own_fin_summary, res, fn_role, all_down):
     """fn_role: 'ready' | 'send' | 'fin:<name>' | 'helper'
-    returns (summary_ready_on_success, success_returns_seen)"""
+    returns summary {"ready": must-ready-on-success, "findone": must-fin-done-on-success, "n": success return sites}"""
     b = fa.b
     spec = fa.spec
-    sw_cache = {}
     summary = {"ready": None, "findone": None, "n": 0}
     seen_viol = set()
+    report = {"on": False}
+
+    def viol(rule, key, msg, bb):
+        if report["on"] and (rule, key) not in seen_viol:
+            seen_viol.add((rule, key))
+            res.violations.append((rule, b, key, msg, bb))
 
     def contribute(st, tag):
         """_0 assigned a value with protocol tag `tag` in state st"""
-        res.ret_sites += 1
+        if report["on"]:
+            res.ret_sites += 1
         if tag is None:
-            res.unresolved_returns += 1
+            if report["on"]:
+                res.unresolved_returns += 1
             return
         if tag[0] == "lit":
             if tag[1] != "success":
@@ -468,26 +602,34 @@ def run_typestate(fa, entry_ready, own_ready_summary, own_fin_summary, res, fn_r
                 hs = fa.helper_summ.get(kind[7:], {})
                 r = r | hs.get("ready", frozenset())
                 fd = fd | hs.get("findone", frozenset())
+        if not report["on"]:
+            return
         summary["n"] += 1
         summary["ready"] = r if summary["ready"] is None else summary["ready"] & r
         summary["findone"] = fd if summary["findone"] is None else summary["findone"] & fd
-        # finalize obligation
         if fn_role.startswith("fin:"):
             nm = fn_role[4:]
             missing = [d for d in sorted(all_down) if not fin_satisfied(spec.kind, nm, all_down[d], fd, d)]
             if missing:
-                key = "finalize|%s" % ",".join(missing)
-                if key not in seen_viol:
-                    seen_viol.add(key)
-                    res.violations.append(("finalize", b, "missing:" + ",".join(missing),
-                                           "%s can return success without %s having succeeded on downstream %s" % (nm, nm, ", ".join(missing)), None))
+                viol("finalize", "missing:" + ",".join(missing),
+                     "%s can return success without the corresponding finalize having succeeded on downstream %s" % (nm, ", ".join(missing)), None)
 
-    def transfer(bb, st):
-        ready, fs, fd = set(st.ready), set(st.fin_started), set(st.fin_done)
-        # statements: assignments to the return place
+    def is_ready(ident, ready):
+        if ident in ready:
+            return True
+        return star_covers(ident, ready)
+
+    def step(bb, st):
+        """transfer one disjunct through block bb; returns dict succ -> State"""
+        ready, fs, fd, bools = set(st.ready), set(st.fin_started), set(st.fin_done), dict(st.bools)
+
+        def cur():
+            return State(frozenset(ready), frozenset(fs), frozenset(fd), frozenset(bools.items()))
         for s in b.stmts(bb):
-            if "lhs" in s and s["lhs"] == 0:
-                rv = s["rv"]
+            if "lhs" not in s:
+                continue
+            lhs, rv = s["lhs"], s["rv"]
+            if lhs == 0:
                 tag = None
                 if rv["k"] == "agg":
                     tag = fa.literal_tag(rv)
@@ -495,43 +637,56 @@ def run_typestate(fa, entry_ready, own_ready_summary, own_fin_summary, res, fn_r
                     p = op_place(rv["ops"][0])
                     if p is not None:
                         tag = fa.tag_of_place(p)
-                contribute(State(frozenset(ready), frozenset(fs), frozenset(fd)), tag)
+                contribute(cur(), tag)
+            elif isinstance(lhs, int) and b.locals[lhs] == "bool":
+                if rv["k"] == "use" and rv["ops"][0].get("c") in ("true", "false"):
+                    bools[lhs] = rv["ops"][0]["c"] == "true"
+                elif rv["k"] == "use" and isinstance(op_place(rv["ops"][0]), int) and op_place(rv["ops"][0]) in bools:
+                    bools[lhs] = bools[op_place(rv["ops"][0])]
+                else:
+                    bools.pop(lhs, None)
         t = b.term(bb)
         if t["k"] == "call":
             ev = fa.events.get(bb)
+            if isinstance(t.get("dst"), int):
+                bools.pop(t["dst"], None)
             if ev:
                 ident = ev["ident"]
                 if ev["kind"] == "ready":
-                    res.readies += 1
+                    if report["on"]:
+                        res.readies += 1
                     if not ev["own"]:
                         ready.discard(ident)
                 elif ev["kind"] == "send":
-                    res.sends += 1
+                    if report["on"]:
+                        res.sends += 1
                     if not ev["own"]:
                         if ident in fs:
-                            res.violations.append(("ready", b, "send-after-finalize:" + ident,
-                                                   "start_send on downstream `%s` after a finalize call on it was started" % ident, bb))
-                        elif ident not in ready:
-                            res.violations.append(("ready", b, "unready-send:" + ident,
-                                                   "start_send on downstream `%s` is not dominated by a successful poll_ready on it" % ident, bb))
+                            viol("ready", "send-after-finalize:" + ident,
+                                 "start_send on downstream `%s` after a finalize call on it was started" % ident, bb)
+                        elif not is_ready(ident, ready):
+                            why = " (the receiver may be freshly created: it was obtained through %s)" % fresh_step(ident) if fresh_step(ident) else ""
+                            viol("ready", "unready-send:" + ident,
+                                 "start_send on downstream `%s` is not dominated by a successful poll_ready on it%s" % (ident, why), bb)
                         ready.discard(ident)
+                        for r in list(ready):
+                            if r.endswith(".*") and ident.startswith(r[:-1]):
+                                ready.discard(r)
                     else:
                         ready.clear()
                 elif ev["kind"].startswith("fin:"):
-                    res.fins += 1
+                    if report["on"]:
+                        res.fins += 1
                     if not ev["own"]:
                         fs.add(ident)
                         ready.discard(ident)
                     else:
                         ready.clear()
-                if t.get("dst") == 0:
-                    tag = fa.tags.get(0)
-                    # `_0` is multi-def; build the tag from the event itself
-                    if ev["kind"] != "send":
-                        contribute(State(frozenset(ready), frozenset(fs), frozenset(fd)), (ev["kind"], ident, ev["level"], ev["own"]))
+                if t.get("dst") == 0 and ev["kind"] != "send":
+                    contribute(cur(), (ev["kind"], ident, ev["level"], ev["own"]))
             else:
                 f = t.get("f")
-                if not is_passthrough(f) and may_proto(fa.crate, f):
+                if not is_passthrough(f) and may_proto(fa.crate, f) and not fa.forall_event(bb):
                     for a in t["a"]:
                         p = op_place(a)
                         if p is None:
@@ -541,7 +696,7 @@ def run_typestate(fa, entry_ready, own_ready_summary, own_fin_summary, res, fn_r
                             if related(r, ident):
                                 ready.discard(r)
                 if t.get("dst") == 0:
-                    tag = fa.helper_tag(t)
+                    tag = fa.helper_tag(t) or fa.forall_tag(bb)
                     if tag is not None:
                         pass
                     elif f and f["name"] == "pending":
@@ -551,13 +706,25 @@ def run_typestate(fa, entry_ready, own_ready_summary, own_fin_summary, res, fn_r
                     elif f and f["name"] in ("convert_into", "try_convert_into", "map_err", "map_ok", "map") and t["a"]:
                         p = op_place(t["a"][0])
                         tag = fa.tag_of_place(p) if p is not None else None
-                    contribute(State(frozenset(ready), frozenset(fs), frozenset(fd)), tag)
-        base = State(frozenset(ready), frozenset(fs), frozenset(fd))
+                    contribute(cur(), tag)
+        base = cur()
         outs = {}
         sw = fa.switch_info(bb)
-        for lbl, tgt in b.succ_edges(bb):
+        bool_sw = None
+        if t["k"] == "switch":
+            dp = op_place(t["d"])
+            if isinstance(dp, int) and dp in bools:
+                bool_sw = bools[dp]
+        edges = b.succ_edges(bb)
+        for lbl, tgt in edges:
+            if bool_sw is not None:
+                # switchInt on a bool: value 0 = false, otherwise = true
+                if lbl == 0 and bool_sw:
+                    continue
+                if lbl == "otherwise" and not bool_sw:
+                    continue
             st2 = base
-            if sw and tgt in sw and len([1 for _, t2 in b.succ_edges(bb) if t2 == tgt]) == 1:
+            if sw and tgt in sw and len([1 for _, t2 in edges if t2 == tgt]) == 1:
                 for tag, success, vname in sw[tgt]:
                     if not success:
                         continue
@@ -575,18 +742,43 @@ def run_typestate(fa, entry_ready, own_ready_summary, own_fin_summary, res, fn_r
             outs[tgt] = st2 if tgt not in outs else outs[tgt].join(st2)
         return outs
 
-    # first pass to fixpoint silently, second pass to report with final states
-    saved = (res.violations[:], res.sends, res.readies, res.fins, res.ret_sites, res.unresolved_returns)
-    states = forward_dataflow(b, State(frozenset(entry_ready)), transfer, lambda a, c: a.join(c))
-    res.violations[:] = saved[0]
-    res.sends, res.readies, res.fins, res.ret_sites, res.unresolved_returns = saved[1:]
-    summary.update({"ready": None, "findone": None, "n": 0})
-    seen_viol.clear()
+    def transfer(bb, djs):
+        outs = {}
+        for st in djs:
+            for tgt, st2 in step(bb, st).items():
+                outs.setdefault(tgt, set()).add(st2)
+        return {tgt: dj_join(frozenset(v), frozenset()) for tgt, v in outs.items()}
+
+    init = frozenset([State(frozenset(entry_ready))])
+    states = forward_dataflow(b, init, transfer, dj_join)
+    report["on"] = True
     for bb in sorted(states):
         if b.is_cleanup(bb):
             continue
         transfer(bb, states[bb])
     return summary
+
+
+LOOKUP_STEPS = {"get_mut", "get", "unwrap", "unwrap_or_else", "expect", "values_mut", "iter_mut", "index_mut", "index", "as_mut",
+                "get_unchecked_mut", "unwrap_unchecked", "next", "as_pin_mut", "pin_project_pair", "get_pin_mut", "project"}
+
+
+def fresh_step(ident):
+    """name of a path step that may create the receiver (entry/or_insert*/insert...), or None"""
+    for part in ident.split("."):
+        if part.startswith("?") and len(part) > 1 and part[1:] not in LOOKUP_STEPS:
+            return part[1:]
+    return None
+
+
+def star_covers(ident, ready):
+    """an element ident `coll.?x.?y` is ready if `coll.*` is (all elements readied) and no step may create it"""
+    if fresh_step(ident):
+        return False
+    for r in ready:
+        if r.endswith(".*") and ident.startswith(r[:-1]) and "?" in ident[len(r) - 1:]:
+            return True
+    return False
 
 
 def implied_by(spec, nm):
